@@ -164,7 +164,7 @@ package rapid
 // ---------------------------------------------------------------------------------------------
 // repeat: collection length control
 
-//@ define repeatInv(r) = 0 <= r.minCount && r.minCount <= r.maxCount && 0 <= r.count && r.pContinue >= 0 && r.pContinue <= 1
+//@ define repeatInv(r) = 0 <= r.minCount && r.minCount <= r.maxCount && 0 <= r.count && r.count <= r.maxCount && r.pContinue >= 0 && r.pContinue <= 1
 //@ define groupUsed(r) = implies(r.group >= 0, drawn > gbegin[r.group])
 
 //@ func newRepeat
@@ -174,6 +174,11 @@ package rapid
 //@   ensures [C03] fresh(result) && repeatInv(result)
 //@   ensures [C03] result.count == 0 && result.group == -1 && !result.forceStop
 //@   ensures [C03] result.minCount == ite(minCount < 0, 0, minCount) && result.maxCount == ite(maxCount < 0, math.MaxInt, maxCount)
+//@   ensures [C03] implies(avgCount < 0, result.avgCount >= 0 && result.avgCount <= 1<<54) && implies(avgCount >= 0, result.avgCount == avgCount)
+
+//@ func (*repeat).avg
+//@   requires [C03] r.avgCount >= 0 && r.avgCount <= 1<<62
+//@   ensures [C03] result >= 0
 
 //@ func (*repeat).more
 //@   requires [C03] repeatInv(r) && groupUsed(r)
@@ -189,3 +194,74 @@ package rapid
 //@   ensures [C03] repeatInv(r) && r.count == old(r.count) - 1 && r.rejected
 //@   panics invalidData: r.count < r.minCount
 //@   modifies r.count, r.rejected, r.rejections, r.forceStop
+
+// ---------------------------------------------------------------------------------------------
+// User code and generator implementations seen through their interfaces (most general client).
+// A callback may draw (drawn only grows), may touch the *T it was given through T's exported
+// methods (rely: see the contracts of those methods), and may end by panicking with any value.
+
+//@ callback func(*T)
+//@   params fn, t
+//@   ensures drawn >= old(drawn)
+//@   panics any: drawn >= old(drawn)
+//@   modifies drawn, t.failed, t.cleanups, t.ctx, t.cancelCtx, t.draws
+
+//@ callback func(*T) V
+//@   params fn, t
+//@   ensures drawn >= old(drawn)
+//@   panics any: drawn >= old(drawn)
+//@   modifies drawn, t.failed, t.cleanups, t.ctx, t.cancelCtx, t.draws
+
+//@ callback func(*T) (V, bool)
+//@   params fn, t
+//@   ensures drawn >= old(drawn)
+//@   panics any: drawn >= old(drawn)
+//@   modifies drawn, t.failed, t.cleanups, t.ctx, t.cancelCtx, t.draws
+
+// pure user functions (keys, predicates, mappers): no access to a *T, may panic
+//@ callback func(E) K
+//@   params fn, e
+//@   panics any: true
+//@ callback func(V) K
+//@   params fn, v
+//@   panics any: true
+//@ callback func(V) bool
+//@   params fn, v
+//@   panics any: true
+//@ callback func(U) V
+//@   params fn, u
+//@   panics any: true
+
+//@ func generatorImpl.value
+//@   params impl, t
+//@   ensures drawn >= old(drawn)
+//@   panics any: drawn >= old(drawn)
+//@   modifies drawn, t.failed, t.cleanups, t.ctx, t.cancelCtx, t.draws
+
+//@ func generatorImpl.String
+//@   params impl
+
+//@ func (*Generator).String
+//@   ensures result == g.str
+//@   modifies g.str, g.strOnce
+
+//@ func (*Generator).value
+//@   ensures [C03] drawn > old(drawn)
+//@   panics any: drawn >= old(drawn)
+//@   modifies drawn, t.failed, t.cleanups, t.ctx, t.cancelCtx, t.draws
+
+// ---------------------------------------------------------------------------------------------
+// collections.go
+
+//@ define minOf(n) = ite(n < 0, 0, n)
+//@ define maxOf(n) = ite(n < 0, math.MaxInt, n)
+//@ define lenOK(n, minLen, maxLen) = implies(minLen >= 0, n >= minLen) && implies(maxLen >= 0, n <= maxLen)
+
+//@ func (*sliceGen).value
+//@   requires [C03] g.maxLen < 0 || g.minLen <= g.maxLen
+//@   requires [C03] g.minLen < 1<<52
+//@   ensures [C03] lenOK(len(result), g.minLen, g.maxLen)
+//@   panics any: true
+//@   modifies drawn, t.failed, t.cleanups, t.ctx, t.cancelCtx, t.draws, g.elem.str, g.elem.strOnce
+//@   loop 0 invariant [C03] len(sl) == repeat.count && repeatInv(repeat) && groupUsed(repeat)
+//@   loop 0 invariant [C03] repeat.minCount == minOf(g.minLen) && repeat.maxCount == maxOf(g.maxLen)
